@@ -344,8 +344,9 @@ def t3(ctx, res):
     inf = ctx.inf
     rows = {}
     for n in walk_own(pe.body):
-        if isinstance(n, ast.For) and isinstance(n.iter, (ast.Tuple, ast.List)):
-            for r in n.iter.elts:
+        it_ = deref_const(ctx, pe, n.iter) if isinstance(n, ast.For) else None
+        if isinstance(n, ast.For) and isinstance(it_, (ast.Tuple, ast.List)):
+            for r in it_.elts:
                 if isinstance(r, ast.Tuple) and len(r.elts) == 2 and isinstance(r.elts[0], ast.Constant) \
                         and isinstance(r.elts[0].value, str) and isinstance(r.elts[1], ast.Name):
                     # the loop body must store parser(schema, state) under schema[keyword]
@@ -439,6 +440,36 @@ def t3(ctx, res):
     if ck is None:
         raise AnalysisError("COMPOSITION_KEYWORDS is no longer a literal tuple")
     loop_keys = set()
+    # general form: a loop over the keywords whose body stores, under composition[key], a list built by sending
+    # every member of composition.get(key, ...) through parse_element (comprehension or accumulate-loop)
+    from .norm import strings_reaching
+    vcomp = view(comp, ctx.prog, keep=tuple(comp.locals())).body
+    for n in walk_own(vcomp):
+        if not (isinstance(n, ast.For) and isinstance(n.target, ast.Name)):
+            continue
+        k_ = n.target.id
+        cands = inf.iter_strings(n.iter, comp)
+        if cands is None and isinstance(n.iter, ast.GeneratorExp) and len(n.iter.generators) == 1:
+            cands = inf.iter_strings(n.iter.generators[0].iter, comp)
+            if cands is not None:
+                for c in n.iter.generators[0].ifs:
+                    if isinstance(c, ast.Compare) and len(c.ops) == 1 and isinstance(c.ops[0], ast.NotEq) \
+                            and isinstance(c.comparators[0], ast.Constant):
+                        cands = cands - {c.comparators[0].value}
+                    else:
+                        cands = None
+                        break
+        if cands is None:
+            continue
+        good_builders = [b_ for b_ in builders(n.body) if b_.kind == "list" and not b_.guards
+                         and match(_parse(f"MV_c.get({k_}, MV__)"), b_.iter) is not None
+                         and match(_parse(f"parse_element({norm(b_.target)}, MV_st)"), b_.elt) is not None]
+        for st in walk_own(n.body):
+            if isinstance(st, ast.Assign) and len(st.targets) == 1 and isinstance(st.targets[0], ast.Subscript) \
+                    and norm(st.targets[0].slice) == k_:
+                v_ = st.value
+                if any(b_.node is v_ or (isinstance(v_, ast.Name) and b_.name == v_.id) for b_ in good_builders):
+                    loop_keys |= strings_reaching(n, st, cands) or set()
     for n in walk_own(comp.body):
         if isinstance(n, ast.For):
             for node, b in find("MV_c[MV_k] = [parse_element(MV_x, MV_st) for MV_x in MV_c.get(MV_k, MV__)]", n.body):
@@ -591,8 +622,39 @@ def t4(ctx, res):
     res.check(has("MV_k.__subclasses__()", asub) and has("_all_subclasses(MV_c)", asub), asub, "transitive __subclasses__()",
               reason="implicit (indirect) subclasses are included")
     ev = ctx.cls("Element").props["validators"]["get"]
-    res.check(has("[MV_s.type_validator] + list(get_validators(MV_s))", ev), ev,
-              "[self.type_validator] + list(get_validators(self))", reason="type validator plus every keyword validator")
+    # the returned list = the type validator + everything get_validators yields (display, +, extend, +=, unpacking)
+    vev = view(ev, ctx.prog, keep=tuple(ev.locals())).body
+    parts = []
+
+    def contrib(e):
+        if isinstance(e, ast.BinOp) and isinstance(e.op, ast.Add):
+            contrib(e.left)
+            contrib(e.right)
+        elif isinstance(e, (ast.List, ast.Tuple)):
+            for x in e.elts:
+                parts.append(norm(x.value) + "*" if isinstance(x, ast.Starred) else norm(x))
+        elif isinstance(e, ast.Call) and dotted(e.func) in ("list", "tuple") and len(e.args) == 1:
+            parts.append(norm(e.args[0]) + "*")
+        elif isinstance(e, ast.Name):
+            for st in walk_own(vev):
+                if isinstance(st, (ast.Assign, ast.AnnAssign)) and st.value is not None and \
+                        any(isinstance(t, ast.Name) and t.id == e.id for t in (st.targets if isinstance(st, ast.Assign) else [st.target])):
+                    contrib(st.value)
+                if isinstance(st, ast.AugAssign) and isinstance(st.target, ast.Name) and st.target.id == e.id:
+                    contrib(st.value)
+                if isinstance(st, ast.Expr) and isinstance(st.value, ast.Call) and isinstance(st.value.func, ast.Attribute) \
+                        and norm(st.value.func.value) == e.id and st.value.func.attr in ("extend", "append") and st.value.args:
+                    parts.append(norm(st.value.args[0]) + ("*" if st.value.func.attr == "extend" else ""))
+        else:
+            parts.append("?" + norm(e)[:40])
+    for pth in enumerate_paths(vev):
+        if pth.exit == "return" and pth.exit_node.value is not None:
+            contrib(pth.exit_node.value)
+    sp_ = ev.self_param() or "self"
+    want_parts = {f"{sp_}.type_validator", f"get_validators({sp_})*"}
+    res.judge(True if set(parts) == want_parts else (None if any(x.startswith("?") for x in parts) or not parts else False), ev,
+              "[self.type_validator] + list(get_validators(self))", detail={"parts": sorted(set(parts))},
+              reason="type validator plus every keyword validator")
     # ObjectMeta.validators explicit list
     ov = ctx.cls("ObjectMeta").props["validators"]["get"]
     listed = set()
@@ -808,6 +870,8 @@ def t6(ctx, res):
             if isinstance(n, ast.Call) and isinstance(n.func, ast.Attribute) and norm(n.func.value) == name \
                     and n.func.attr in ("append", "extend", "insert"):
                 out += list(n.args)
+            if isinstance(n, (ast.For, ast.comprehension)) and any(isinstance(x, ast.Name) and x.id == name for x in ast.walk(n.target)):
+                out.append(n.iter)   # a loop variable stands for the members of what it iterates
         more = []
         for e in out:
             for x in ast.walk(e):
@@ -982,9 +1046,9 @@ def t9(ctx, res):
         m = c.methods.get(mname)
         if m is None:
             raise AnalysisError(f"_Property.{mname} vanished")
-        calls = [n for n in walk_own(m.body) if isinstance(n, ast.Call) and dotted(n.func) in ("_Property", "type(self)", "self.__class__")]
+        calls = [n for n in walk_own(view(m, ctx.prog).body) if isinstance(n, ast.Call) and dotted(n.func) in ("_Property", "type(self)", "self.__class__")]
         if not calls:
-            res.violation(m, "_Property(...)", reason="copy constructor does not construct a property")
+            res.unrecognised(m, "_Property(...)", reason="the copy constructor's construction call was not found")
             continue
         call = calls[0]
         passed = {}
